@@ -25,7 +25,10 @@ try:
 finally:
     sh(f"git -C {SREPO} checkout -- .")
     sh(f"rm -f {SVERIF}/replay/*.json")
-meta["checks"] = res
-meta["caught_by"] = [c for c, v in res.items() if v["exit"] == 1]
+# results of checks that were not re-run this time are kept (SEED_MERGE=0 drops them)
+merged = dict(meta.get("checks") or {}) if os.environ.get("SEED_MERGE", "1") == "1" else {}
+merged.update(res)
+meta["checks"] = merged
+meta["caught_by"] = [c for c, v in merged.items() if v["exit"] == 1]
 json.dump(meta, open(f"{d}/meta.json", "w"), indent=1)
 print(label, {c: (v["exit"], v["no_failing_input"]) for c, v in res.items()})
